@@ -40,10 +40,16 @@ def main() -> int:
     os.rmdir(wt)
     res = {"source": f"{srcdir} #{k}"}
     try:
-        rc, out = sh(f"git -C /repo worktree add -q --detach {wt} HEAD")
+        base = sys.argv[sys.argv.index("--base") + 1] if "--base" in sys.argv else "HEAD"
+        rc, out = sh(f"git -C /repo worktree add -q --detach {wt} {base}")
         rc, out = sh(f"git apply {diff}", cwd=wt)
-        if rc:
-            rc, out = sh(f"git apply -3 {diff}", cwd=wt)
+        if rc and base == "HEAD":
+            # the refactoring was written against an older commit: evaluate it there
+            sh(f"git -C /repo worktree remove --force {wt}")
+            base = "35b6ddd"
+            sh(f"git -C /repo worktree add -q --detach {wt} {base}")
+            rc, out = sh(f"git apply {diff}", cwd=wt)
+        res["base"] = base
         if rc:
             res["applies"] = False
             print(json.dumps(res, indent=1))
@@ -80,6 +86,7 @@ def main() -> int:
                     "kind": "behaviour-preserving refactoring by an independent sub-agent (given only an area of the source, nothing from /verif)",
                     "suite_passed": res["suite_passed"],
                     "what_was_run": ["baseline suite with the refactoring applied (327 passed + the known failure)", "every claimed check with --root <scratch worktree>: all must exit 0"],
+                    "base_commit": res.get("base", "HEAD"),
                     "noisy_when_first_evaluated": res["noisy"],
                     "detail_when_first_evaluated": res["detail"],
                 },
